@@ -191,8 +191,8 @@ def _wrap_os():
     def note_remove(path):
         w = tracked(path)
         if w is not None:
-            w.link_site.pop(path, None)
-            w.removals.append((path, _site_now()))
+            creator = w.link_site.pop(path, (0, None))[1]
+            w.removals.append((path, _site_now(), creator))
 
     def tick(*paths):
         """Crash point: the manager process is killed right after its k-th
@@ -293,12 +293,21 @@ def _configure_body(tm_env, event):
     return container_dir
 
 
+class CleanupPaused(BaseException):
+    """Cleanup.invoke stops between runtime.finish() and fs.rm_safe(link)."""
+
+
 class _RuntimeStandin:
     def __init__(self, container_dir):
         self.container_dir = container_dir
 
     def finish(self):
         shutil.rmtree(self.container_dir)
+        w = _CUR
+        if w is not None and w.pause_finish:
+            # the cleanup process is descheduled right after finish():
+            # Cleanup.invoke has not yet removed its link
+            raise CleanupPaused()
 
 
 def _get_runtime_standin(runtime, tm_env, container_dir, param=None):
@@ -434,7 +443,8 @@ class NodeWorld:
     _SAVED = ('cache', 'bad', 'nextgen', 'cache_ident', 'cname', 'ready',
               'fifo', 'fifo_ages', 'evno', 'late_seen', 'tombs', 'link_seq',
               'link_site', 'viol', 'stats',
-              'crashes', 'rep_gens', 'ever', 'last_mgr_actor')
+              'crashes', 'rep_gens', 'ever', 'last_mgr_actor', 'inflight',
+              'finished_gens')
 
     def __init__(self, cfg, token=None):
         """A fresh world, or (token) the world saved by checkpoint()."""
@@ -466,6 +476,11 @@ class NodeWorld:
         self.rep_gens = set()        # (key, gen) written by replace-in-place
         self.ever = set()            # container names ever seen under apps/
         self.last_mgr_actor = 'AppCfgMgr.?'
+        self.inflight = []           # cleanup links whose invoke ran finish()
+        # harness record: unique names of the generations that finished,
+        # aborted or ran out of memory (survives the removal of apps/<c>)
+        self.finished_gens = set()
+        self.pause_finish = False
         self.evno = 0
         self.late_seen = False       # a notification was delivered late
         self.fifo = []               # [(kind, basename)] dirwatch queue
@@ -609,7 +624,15 @@ class NodeWorld:
                 clause = ('container-in-running-and-cleanup'
                           if any(l[0] == 'running' for l in links)
                           else 'container-two-cleanup-links')
-                self.flag(clause, self.site_of(*newest)[1], {
+                site = self.site_of(*newest)[1]
+                if c not in pre.apps and any(
+                        d == 'cleanup' and pre.cleanup.get(n) == c
+                        for d, n in links):
+                    # the directory of a container whose cleanup link was
+                    # dangling (finish() done, link not yet removed) has been
+                    # created again: told apart from the other double links
+                    site += ' [dangling cleanup link revived]'
+                self.flag(clause, site, {
                     'container': str(self.cid(c)),
                     'links': ['%s/%s' % (d, self.lname(n)) for d, n in links],
                     'newest': '%s/%s' % (newest[0], self.lname(newest[1])),
@@ -625,6 +648,31 @@ class NodeWorld:
                           self.site_of('running', name)[1],
                           {'link': name, 'target': str(self.cid(tgt)),
                            'state': self.describe(post)})
+        # a container leaves cleanup/ only by being cleaned (its directory
+        # removed): a handed-over container must not lose its last link
+        removed = {r[0]: r for r in self.removals}
+        for c, links in pt.items():
+            if c not in post.apps or c in qt or \
+                    not any(d == 'cleanup' for d, _n in links):
+                continue
+            d, n = [l for l in links if l[0] == 'cleanup'][-1]
+            if n in post.cleanup:
+                site = self.site_of(d, n)[1]          # overwritten
+            else:
+                rec = removed.get(os.path.join(self.cleanup_dir, n))
+                site = (rec[2] if rec and rec[2] else '?<-' + self.actor)
+            if post.apps[c] & set(FINISH_FLAGS):
+                # outside the clause as asked for (finished containers);
+                # counted, see coverage.finished_dropped_sample
+                self.stats['finished_container_dropped_from_cleanup'] += 1
+                self.stats['finished_dropped@' + site] += 1
+                continue
+            self.flag('cleanup-container-dropped-not-cleaned', site,
+                      {'container': str(self.cid(c)),
+                       'link_was': 'cleanup/%s' % (self.lname(n),),
+                       'link_now': str(self.cid(post.cleanup.get(n))),
+                       'by': self.actor,
+                       'state': self.describe(post)})
         # a container leaves running/ only by being handed to cleanup
         for name, tgt in pre.running.items():
             if name.startswith('.') or tgt not in post.apps:
@@ -635,7 +683,7 @@ class NodeWorld:
             if name in post.running:
                 site = self.site_of('running', name)[1]
             else:
-                site = dict(self.removals).get(
+                site = {r[0]: r[1] for r in self.removals}.get(
                     os.path.join(self.running_dir, name), '?<-' + self.actor)
             self.flag('running-container-dropped-not-in-cleanup', site,
                       {'container': str(self.cid(tgt)),
@@ -646,12 +694,18 @@ class NodeWorld:
             if tgt in pre_run or name.startswith('.'):
                 continue
             flags = pre.apps.get(tgt)
-            if flags and flags & set(FINISH_FLAGS):
+            if (flags and flags & set(FINISH_FLAGS)) or \
+                    tgt in self.finished_gens:
                 self.stats['restart_of_finished_checked'] += 1
-                self.flag('finished-container-restarted',
-                          self.site_of('running', name)[1],
+                site = self.site_of('running', name)[1]
+                if tgt not in pre.apps:
+                    # finish() had removed the directory: the same unique
+                    # name has been configured again
+                    site += ' [after its cleanup completed]'
+                self.flag('finished-container-restarted', site,
                           {'container': str(self.cid(tgt)),
-                           'flags': sorted(flags),
+                           'flags': sorted(flags or ()),
+                           'directory_existed': tgt in pre.apps,
                            'state': self.describe(post)})
 
     # -- oracle: after every _synchronize --------------------------------------
@@ -714,8 +768,16 @@ class NodeWorld:
                 continue
             c = inv[(key, gen)]
             flags = pre.apps.get(c, frozenset())
-            finished = bool(flags & set(FINISH_FLAGS))
-            if not finished:
+            # finished by the harness's own record (the directory, and with
+            # it exitinfo, may be gone): such an entry cannot be configured
+            # without starting a finished container again
+            finished = bool(flags & set(FINISH_FLAGS)) or \
+                c in self.finished_gens
+            gone_in_cleanup = (c not in pre.apps and c not in post.apps and
+                               c in set(post.cleanup.values()))
+            if gone_in_cleanup:
+                self.stats['sync_cached_in_cleanup_exempted'] += 1
+            elif not finished:
                 self.stats['sync_cached_checked'] += 1
                 if post.running.get(name) != c and key not in unchanged_hit:
                     self.flag('sync-cached-not-running'
@@ -735,7 +797,7 @@ class NodeWorld:
                 # (finished-container-restarted) on the enclosing transition
         # a container whose cache entry disappeared is handed to cleanup
         removed_by = {}
-        for path, site in self.removals:
+        for path, site, _creator in self.removals:
             removed_by[path] = site
         for c in pre.apps:
             owner = self.cname.get(c)
@@ -780,6 +842,8 @@ class NodeWorld:
         except ManagerKilled:
             self.stats['manager_killed_mid_handler'] += 1
             ok = False
+        except CleanupPaused:
+            pass
         except Exception as err:  # pylint: disable=broad-except
             tb = err.__traceback__
             last = None
@@ -818,6 +882,8 @@ class NodeWorld:
         self.check_step(self.prev, post)
         self.prev = post
         self.ever.update(post.apps)
+        self.finished_gens.update(
+            c for c, f in post.apps.items() if f & set(FINISH_FLAGS))
 
     # -- oracle: quiescent states -----------------------------------------------
     def check_quiescent(self):
@@ -834,6 +900,21 @@ class NodeWorld:
         self.stats['quiescent_states_checked'] += 1
         inv = {v: k for k, v in self.cname.items()}
         in_cleanup = set(post.cleanup.values())
+        linked = set(post.running.values()) | in_cleanup
+        for c, flags in post.apps.items():
+            owner = self.cname.get(c)
+            if owner is None or self.cache.get(owner[0]) == owner[1]:
+                continue
+            if flags & set(FINISH_FLAGS):
+                continue
+            self.stats['quiescent_uncached_checked'] += 1
+            if c not in linked:
+                self.flag('quiescent-uncached-not-linked',
+                          'AppCfgMgr.(no handler linked it)',
+                          {'container': str(owner),
+                           'last_handler': self.last_mgr_actor,
+                           'state': self.describe(post)})
+                return
         for key in KEYS:
             name = INSTANCE[key]
             gen = self.cache.get(key)
@@ -1014,6 +1095,7 @@ class NodeWorld:
             self.ready = False
             del self.fifo[:], self.fifo_ages[:]
             del self.tombs[:]
+            del self.inflight[:]
             self.new_manager()
             self.stats['boots'] += 1
             self.prev = self.snapshot()     # not an action of the manager
@@ -1042,8 +1124,29 @@ class NodeWorld:
         elif kind == 'tomb':
             self.tomb_one()
         elif kind == 'cln':
+            # Cleanup.invoke(name): readlink, runtime.finish() (removes the
+            # container directory), fs.rm_safe(link).  With split_cln the
+            # process stops after finish(); 'clu' is the rest.
             name = self.real_link_name(ev[1:])
-            self._call('Cleanup.invoke', self.cleaner.invoke, 'linux', name)
+            path = os.path.join(self.cleanup_dir, name)
+            self.pause_finish = bool(self.cfg.get('split_cln'))
+            try:
+                self._call('Cleanup.invoke', self.cleaner.invoke, 'linux',
+                           name)
+            finally:
+                self.pause_finish = False
+            if os.path.lexists(path) and not os.path.exists(path):
+                self.inflight.append(tuple(ev[1:]))
+                self.stats['cleanups_paused_after_finish'] += 1
+            else:
+                self.stats['cleanups_completed'] += 1
+        elif kind == 'clu':
+            # the tail of the in-flight Cleanup.invoke: fs.rm_safe(link) by
+            # NAME, whatever the link references by now
+            self.inflight.remove(tuple(ev[1:]))
+            name = self.real_link_name(ev[1:])
+            self._call('Cleanup.invoke', tm_fs.rm_safe,
+                       os.path.join(self.cleanup_dir, name))
             self.stats['cleanups_completed'] += 1
         else:
             raise statex.HarnessError('unknown event %r' % (ev,))
@@ -1114,8 +1217,10 @@ class NodeWorld:
             menu.append(('tomb',))
         for name in sorted(snap.cleanup, key=lambda n: str(self.lname(n))):
             ln = self.lname(name)
-            if isinstance(ln, tuple):
+            if isinstance(ln, tuple) and ln not in self.inflight:
                 menu.append(('cln',) + ln)
+        for ln in self.inflight:
+            menu.append(('clu',) + ln)
         if cfg.get('boot'):
             menu.append(('boot',))
         return menu
@@ -1130,7 +1235,9 @@ class NodeWorld:
                    # harness truth the quiescence clause depends on
                    (k, self.cache.get(k, 0)) in self.rep_gens,
                    any(self.cname.get(c) == (k, self.cache.get(k, 0))
-                       for c in self.ever)) for k in KEYS),
+                       for c in self.ever),
+                   any(self.cname.get(c) == (k, self.cache.get(k, 0))
+                       for c in self.finished_gens)) for k in KEYS),
             self.ready,
             tuple(sorted((str(self.cid(c)), tuple(sorted(f)))
                          for c, f in s.apps.items())),
@@ -1139,7 +1246,7 @@ class NodeWorld:
             tuple(sorted((str(self.lname(n)), str(self.cid(t)))
                          for n, t in s.cleanup.items())),
             tuple(self.fifo), self.late_seen,
-            tuple(self.tombs),
+            tuple(self.tombs), tuple(self.inflight),
             self.mgr._is_active,  # pylint: disable=protected-access
             s.other,
             # directory order of the cache = order in which _synchronize
